@@ -359,6 +359,21 @@ def variants(quick):
             add("Dense n=%d b=%s" % (n, b), lambda r, n=n, b=b: {"k": "Dense", "A": ops.spd(r, b, n)})
             # spectrum reaching below 1 (logs of both signs; eigenvalues the clamps / masks could touch)
             add("Dense-low n=%d b=%s" % (n, b), lambda r, n=n, b=b: {"k": "Dense", "A": ops.spd(r, b, n, shift=0.25)})
+    # sizes above the default Lanczos budget (max_lanczos_quadrature_iterations = 20): partial quadrature, CG stops by tolerance
+    for n in ([16, 24] if quick else [16, 24, 32]):
+        for b in ([B0] if quick else [B0, B2]):
+            add("Dense-big n=%d b=%s" % (n, b), lambda r, n=n, b=b: {"k": "Dense", "A": ops.spd(r, b, n, shift=0.5)})
+            add("Dense-big-low n=%d b=%s" % (n, b), lambda r, n=n, b=b: {"k": "Dense", "A": ops.spd(r, b, n, shift=0.25)})
+    # two batch dimensions for the classes whose reductions run over "-1" / "-2" of a batched result
+    B12 = [1, 2]
+    add("Dense n=3 b=[1, 2]", lambda r: {"k": "Dense", "A": ops.spd(r, B12, 3, shift=0.5)})
+    add("Dense n=2 b=[2, 1]", lambda r: {"k": "Dense", "A": ops.spd(r, B21, 2)})
+    add("Chol n=3 b=[1, 2]", lambda r: {"k": "Chol", "T": ops.tri(r, B12, 3, False), "upper": False})
+    add("Chol n=2 b=[2, 1] up", lambda r: {"k": "Chol", "T": ops.tri(r, B21, 2, True), "upper": True})
+    add("Kron [2, 2] b=[1, 2]", lambda r: {"k": "Kron", "fs": [ops.spd(r, B12, 2), ops.spd(r, B12, 2, shift=0.25)]})
+    add("LRRAD n=4 r=2 b=[2, 1]", lambda r: {"k": "LRRAD", "U": ops.rnd(r, *B21, 4, 2), "d": ops.pos(r, *B21, 4), "cdiag": False})
+    add("KPAD [2, 2] const b=[1, 2]", lambda r: {"k": "KPAD", "fs": [ops.spd(r, B12, 2), ops.spd(r, B12, 2)],
+                                                 "dk": {"k": "const", "c": ops.pos(r, *B12, 1)}})
     for n in [1, 3, 4]:
         for b in [B0, B2, B21]:
             add("Diag n=%d b=%s" % (n, b), lambda r, n=n, b=b: {"k": "Diag", "d": ops.pos(r, *b, n)})
@@ -452,6 +467,10 @@ def variants(quick):
                             continue
                         if '"cls": "Chol"' in json.dumps(e) and '"upper": true' in json.dumps(e):
                             continue     # CholLinearOperator(upper=True) does not act as its to_dense() (C01 finding)
+                        try:             # constructor restrictions (e.g. AddedDiag over a diagonal base) are not C05's subject
+                            opbuild.build(e, F64)
+                        except Exception:
+                            continue
                         As = 0.5 * (A + A.mT)
                         w = torch.linalg.eigvalsh(As)
                         if (A - A.mT).abs().max() == 0 and w.min() > 0.3 and (w.max() / w.min()).max() < 50:
@@ -574,8 +593,9 @@ def case_lit(case, obs):
         o = "(ObsOk %s %s)" % ("ONone" if isinstance(iq, str) else ops.out_lit(iq),
                                "ONone" if isinstance(ld, str) else ops.out_lit(ld))
     tol_iq, tol_ld = case["tol"]
-    return "(MkCase %s %s %s %s %s %s %s %s %s)" % (
-        settings_lit(case["st"]), ops.bop_lit(spec, pc), ops.rhs_lit(case["R"], case["rhs"] == "vec", batch),
+    api = {"iql": 0, "logdet": 1, "torch.logdet": 1, "inv_quad": 2}[case["api"]]
+    return "(MkCase %s %s %s %s %s %s %s %s %s %s)" % (
+        ops.nat(api), settings_lit(case["st"]), ops.bop_lit(spec, pc), ops.rhs_lit(case["R"], case["rhs"] == "vec", batch),
         "true" if case["logdet"] else "false", "true" if case["reduce"] else "false",
         ops.probes_lit(obs.get("probes") if stochastic else None), ops.fl(tol_iq), ops.fl(tol_ld), o)
 
@@ -603,8 +623,8 @@ def parse_bad(out):
 
 def model_comparable(case, obs):
     """which observed outputs are compared with the model for this case, and with what tolerance"""
-    if case["api"] != "iql":
-        return None
+    if case["api"] == "inv_quad" and case["spec"]["k"] in ("Block", "Repeat"):
+        return None          # LinearOperator.inv_quad through the wrappers' _solve: direct predicate only
     st = case["st"]
     n = ops.spec_size(spec_leaf(case["spec"]))
     if "raise" in obs:
@@ -679,6 +699,9 @@ def run(ctx):
     shards = []
     for i in range(0, len(items), SHARD):
         shards.append(("c05_%d" % (i // SHARD), shard_src([x[1] for x in items[i:i + SHARD]])))
+    for fn in os.listdir(ctx.gen):          # stale shards of an earlier (larger) run
+        if fn.startswith("cases_c05_") and fn.endswith(".v"):
+            os.remove(os.path.join(ctx.gen, fn))
     mism = []
     if ok:
         res = common.run_shards(ctx, shards, timeout=1200)
@@ -742,7 +765,11 @@ def sample_of(r):
 
 
 def replay(rp):
+    """re-run one recorded case on the implementation (predicate against the dense oracle) and in Coq (the model)"""
     torch.set_num_threads(1)
+    if "case" not in rp:
+        print("replay file names a broken obligation / shard, not an input:", json.dumps(rp)[:600])
+        return 1
     case = {k: ops.from_json(v) for k, v in rp["case"].items()}
     defaults = lib_defaults()
     obs = run_impl(case, defaults)
@@ -750,4 +777,24 @@ def replay(rp):
     print("case:", case["name"], case["prof"], "rhs=%s logdet=%s reduce=%s api=%s" % (case["rhs"], case["logdet"], case["reduce"], case["api"]))
     print("observed:", {k: (v if not isinstance(v, torch.Tensor) else v.reshape(-1)[:6].tolist()) for k, v in obs.items() if k != "pc"})
     print("property failure:" if f else "property holds on this case", f or "")
+    tol = model_comparable(case, obs)
+    if tol is not None:
+        case["tol"] = tol
+        src = shard_src([case_lit(case, obs)]).replace("Eval vm_compute in (bad_cases cases 0).",
+                                                       "Eval vm_compute in (map run_case cases, bad_cases cases 0).")
+        rc, out = common.build_prop(PROP)
+        path = os.path.join(common.COQ, PROP, "gen", "cases_replay_%d.v" % os.getpid())
+        os.makedirs(os.path.dirname(path), exist_ok=True)
+        open(path, "w").write(src)
+        rc, out = common.coqc_file(PROP, path, timeout=600)
+        print("model (Coq, PrimFloat):", out.strip()[-1500:])
+        for ext in (".v", ".vo", ".vok", ".vos", ".glob"):
+            try:
+                os.remove(path[:-2] + ext)
+            except OSError:
+                pass
+        try:
+            os.remove(os.path.join(os.path.dirname(path), "." + os.path.basename(path)[:-2] + ".aux"))
+        except OSError:
+            pass
     return 1 if f else 0
